@@ -23,7 +23,7 @@ def run(tier):
                            'generated direct DAGs with all/one/N joins (incl. nested joins, joins fed by on-error/on-complete and by '
                            'guards that do not fire) and reverse requires-graphs, run on the real engine under both schedulers and 8 '
                            'schedule policies; non-trivial = distinct runs in which at least one join with >= 2 inbound branches started or failed',
-                           _nontrivial, model_runs=lambda d: ec.catalogue_model_runs(d, tier), strict=True)
+                           _nontrivial, model_runs=lambda d: ec.catalogue_model_runs(d, tier), strict=True, prescribed=True)
 
 
 def replay(path):
